@@ -119,7 +119,13 @@ func TestVerif_C04_Lifecycle(t *testing.T) {
 			rt.Fatalf("harness: %v", err)
 		}
 		sample()
-		_ = s.ag.addRemoteSync(s.epCandidate(0, eps[0]))
+		// a controlled agent may learn the peer's address from its checks first (peer-reflexive) and be told
+		// the candidate later (op signalLate)
+		prflxFirst := !controlling && rapid.IntRange(0, 3).Draw(rt, "remoteSignalledLate") == 0
+		signalled := !prflxFirst
+		if signalled {
+			_ = s.ag.addRemoteSync(s.epCandidate(0, eps[0]))
+		}
 		restartSteps := map[int]bool{}
 		closed := false
 		lastRecv := time.Time{} // model of the selected remote's liveness timestamp
@@ -160,7 +166,7 @@ func TestVerif_C04_Lifecycle(t *testing.T) {
 		}
 		for i := 0; i < nOps; i++ {
 			s.w.step = i + 1
-			op := rapid.SampledFrom([]string{"tick", "tick", "tick", "tick", "connect", "connect", "traffic", "data", "data", "silence", "silence", "silence", "restart", "close", "answerAll", "roleSwitch", "trickleTwin"}).Draw(rt, "op")
+			op := rapid.SampledFrom([]string{"tick", "tick", "tick", "tick", "connect", "connect", "traffic", "data", "data", "silence", "silence", "silence", "restart", "close", "answerAll", "roleSwitch", "trickleTwin", "signalLate"}).Draw(rt, "op")
 			if op == "close" && rapid.IntRange(0, 7).Draw(rt, "reallyClose") != 5 {
 				op = "tick"
 			}
@@ -281,6 +287,25 @@ func TestVerif_C04_Lifecycle(t *testing.T) {
 				lastRecv = time.Now()
 				lbl["data-refreshes-liveness"] = true
 				s.ops = append(s.ops, fmt.Sprintf("data×%d", n))
+			case "signalLate":
+				// the signalled candidate supersedes the peer-reflexive one (also inside the selected pair):
+				// signalling is not traffic, the state stays what the silence made it
+				if signalled || closed {
+					break
+				}
+				signalled = true
+				wasPrflx := false
+				if sp := s.ag.selectedPair(); sp != nil && sp.Remote.Type() == CandidateTypePeerReflexive {
+					wasPrflx = true
+				}
+				_ = s.ag.addRemoteSync(s.epCandidate(0, eps[0]))
+				if got := s.ag.state(); got != prevState {
+					st.Fail(rt, "C04/state/changed-by-signalling", "AddRemoteCandidate of the candidate behind the selected peer-reflexive remote moved the state %s→%s without any traffic\nops: %s", prevState, got, strings.Join(s.ops, "; "))
+				}
+				if wasPrflx {
+					lbl["selected-prflx-superseded"] = true
+				}
+				s.ops = append(s.ops, "signalLate")
 			case "trickleTwin":
 				// the peer trickles a second candidate of another type on the transport address of the selected
 				// remote (e.g. a server-reflexive candidate equal to its host address): traffic from that address
@@ -357,7 +382,9 @@ func TestVerif_C04_Lifecycle(t *testing.T) {
 					}
 				}
 				_ = s.ag.a.SetRemoteCredentials(s.peer.ufrag, s.peer.pwd)
-				_ = s.ag.addRemoteSync(s.epCandidate(0, eps[0]))
+				if signalled {
+					_ = s.ag.addRemoteSync(s.epCandidate(0, eps[0]))
+				}
 				s.ops = append(s.ops, "restart")
 			case "close":
 				_ = s.ag.a.Close()
